@@ -43,7 +43,8 @@ def generate(run_seed, tier):
             if out.cls != "ok":
                 raise out.exc
 
-        g = W.Generator(rw, ref_compute, families=fams, knob_space=W.knob_space_default(), max_ops=7, pool_knobs=True, knob_prob=0.4)
+        g = W.Generator(rw, ref_compute, families=fams, knob_space=W.knob_space_default(), max_ops=7, pool_knobs=True, knob_prob=0.4,
+                        max_rows=rw.choice([64, 64, 160, 240]))
         g.allow_sample = False
         g.allow_persist = False
         recipe = g.generate(n_targets=rw.choice([1, 2]))
